@@ -1,6 +1,9 @@
 package c08
 
 import (
+	"github.com/bronlabs/bron-crypto/pkg/proofs/sigma/compiler/fiatshamir"
+	"github.com/bronlabs/bron-crypto/pkg/proofs/sigma/compiler"
+	"github.com/bronlabs/bron-crypto/pkg/base/serde"
 	"bytes"
 	"errors"
 	"fmt"
@@ -127,7 +130,68 @@ func sigmaLevel[X sigma.Statement, W sigma.Witness, A sigma.Statement, S sigma.S
 		}
 		sims++
 	}
-	x.Observe(c.name, " extracted ", extracted, " simulated ", sims, " cross-accepted ", cross, " extractor-exposed=", c.extract != nil)
+	forged := shortChallengeForgery(x, c, p, x0)
+	x.Observe(c.name, " extracted ", extracted, " simulated ", sims, " cross-accepted ", cross, " extractor-exposed=", c.extract != nil, " short-challenge proofs tried ", forged)
+}
+
+// fsWire mirrors the wire form of a Fiat-Shamir proof (map with the keys A, E, Z).
+type fsWire[A, Z any] struct {
+	A A      `cbor:"A"`
+	E []byte `cbor:"E"`
+	Z Z      `cbor:"Z"`
+}
+
+// shortChallengeForgery: a Fiat-Shamir proof whose challenge field is SHORTER than the protocol's challenge length.
+// Without a witness, for every one-byte challenge e (all 256) and for the empty challenge, the protocol's own
+// simulator (where it accepts such a challenge) yields an accepting sigma transcript (a, e, z); assembled into a proof
+// it must be rejected: a verifier that sized its recomputed challenge after the proof would accept about one in 256.
+// Cheap protocols only (a simulation and a verification per challenge). Returns the number of proofs presented.
+func shortChallengeForgery[X sigma.Statement, W sigma.Witness, A sigma.Statement, S sigma.State, Z sigma.Response](x *engine.X, c *sigCase[X, W, A, S, Z], p sigma.Protocol[X, W, A, S, Z], x0 X) int {
+	if c.heavy || c.unitMS > 50 || c.noSimulator != nil || p.GetChallengeBytesLength() < 2 {
+		return 0
+	}
+	rng := stream(c.name + "/short-challenge")
+	nip, err := compiler.Compile(fiatshamir.Name, c.mk(rng), rng)
+	if err != nil {
+		return 0
+	}
+	tried := 0
+	var es [][]byte
+	es = append(es, []byte{})
+	for e := 0; e < 256; e++ {
+		es = append(es, []byte{byte(e)})
+	}
+	for _, e := range es {
+		var sa A
+		var sz Z
+		var serr error
+		if msg, _ := guard(func() { sa, sz, serr = p.RunSimulator(x0, e) }); msg != "" || serr != nil {
+			continue // the protocol itself refuses a challenge of this length
+		}
+		enc, err := serde.MarshalCBOR(&fsWire[A, Z]{A: sa, E: e, Z: sz})
+		if err != nil {
+			continue
+		}
+		x.Case("")
+		tried++
+		var verr error
+		msg, site := guard(func() {
+			v, e2 := nip.NewVerifier(verifierCtx().build())
+			if e2 != nil {
+				verr = e2
+				return
+			}
+			verr = v.Verify(x0, enc)
+		})
+		if site != "" {
+			failf(x, "panic@"+site, "%s: Verify panicked on a proof with a %d-byte challenge: %s", c.name, len(e), msg)
+			continue
+		}
+		if verr == nil {
+			failf(x, "accepted/"+family(c.name)+"/FS/short-challenge", "%s: a Fiat-Shamir proof with a %d-byte challenge field %x (protocol challenge length %d), assembled from a simulated transcript WITHOUT a witness, was ACCEPTED", c.name, len(e), e, p.GetChallengeBytesLength())
+		}
+	}
+	return tried
 }
 
 // ---------------------------------------------------------------------------------------------
